@@ -100,11 +100,12 @@ impl Rep for AdjacencyMatrix {}
 impl Rep for EdgeList {}
 
 pub fn inherent<R: Rep, const N: usize>(pmax: usize) {
+    let cfg = pmax;
+    let pmax = cx::threads_max(cfg);
+
     cx::set_vcap(N.max(pmax) + 1);
 
-    let p = nd::below(pmax) + 1;
-
-    cx::set_parallelism(p);
+    let p = cx::threads(cfg);
 
     let g = G::<N>::any();
     let want = defs(&g);
@@ -254,22 +255,30 @@ fn relations_map() {
 
 // @verif prop=C12 tier=quick fl=f0 role=inherent/matrix t=1200 mem=12
 #[cfg_attr(kani, kani::proof)]
-#[cfg_attr(kani, kani::unwind(6))]
+#[cfg_attr(kani, kani::unwind(8))]
 pub fn c12_inherent_matrix_n4() {
     inherent::<AdjacencyMatrix, 4>(1);
 }
 
 // @verif prop=C12 tier=quick fl=f1 role=inherent/edge-list t=1200 mem=12
 #[cfg_attr(kani, kani::proof)]
-#[cfg_attr(kani, kani::unwind(5))]
+#[cfg_attr(kani, kani::unwind(8))]
 pub fn c12_inherent_edge_list_n3() {
     inherent::<EdgeList, 3>(1);
 }
 
-// AdjacencyList incl. the threaded is_semicomplete, thread count p symbolic in 1..=4.
+// AdjacencyList incl. the threaded is_semicomplete with 2 worker threads.
 // @verif prop=C12 tier=quick fl=f2 role=inherent/adjacency-list t=1500 mem=14
 #[cfg_attr(kani, kani::proof)]
-#[cfg_attr(kani, kani::unwind(6))]
+#[cfg_attr(kani, kani::unwind(8))]
+pub fn c12_inherent_adjacency_list_n3_t2() {
+    inherent::<AdjacencyList, 3>(cx::EXACT + 2);
+}
+
+// ... with the thread count symbolic in 1..=4.
+// @verif prop=C12 tier=thorough fl=f2 role=inherent/adjacency-list t=3600 mem=30
+#[cfg_attr(kani, kani::proof)]
+#[cfg_attr(kani, kani::unwind(8))]
 pub fn c12_inherent_adjacency_list_n3_p4() {
     inherent::<AdjacencyList, 3>(4);
 }
@@ -291,7 +300,7 @@ pub fn c12_weighted_n3() {
 // Blanket sub/super/spanning over all pairs of digraphs with vertex sets within 0..3.
 // @verif prop=C12 tier=quick fl=f1 role=relations/array t=1200 mem=12
 #[cfg_attr(kani, kani::proof)]
-#[cfg_attr(kani, kani::unwind(5))]
+#[cfg_attr(kani, kani::unwind(8))]
 pub fn c12_relations_n3() {
     relations::<3>();
 }
@@ -305,7 +314,7 @@ pub fn c12_relations_map() {
 
 // @verif prop=C12 tier=thorough fl=f1 role=inherent/edge-list t=3600 mem=24
 #[cfg_attr(kani, kani::proof)]
-#[cfg_attr(kani, kani::unwind(6))]
+#[cfg_attr(kani, kani::unwind(8))]
 pub fn c12_inherent_edge_list_n4() {
     inherent::<EdgeList, 4>(1);
 }
